@@ -173,6 +173,18 @@ Error query_rw_info(const BaseInst& inst, const Operand_* operands, size_t op_co
         else {
           op.add_op_flags(OpRWFlags::kConsecutive);
         }
+
+        if (src_op.as<Vec>().has_element_index()) {
+          // Only part of the vector is accessed if element index [] is used (ld2/ld3/ld4/st2/st3/st4 single structure).
+          VecElementType element_type = src_op.as<Vec>().element_type();
+          uint32_t element_index = src_op.as<Vec>().element_index();
+
+          uint32_t element_size = element_type_size_table[size_t(element_type)];
+          uint64_t access_mask = uint64_t(Support::lsb_mask<uint32_t>(element_size)) << (element_index * element_size);
+
+          op._read_byte_mask &= access_mask;
+          op._write_byte_mask &= access_mask;
+        }
       }
       else {
         const Mem& mem_op = src_op.as<Mem>();
